@@ -176,7 +176,7 @@ PROPS['C13'] = dict(
     technique='contract-based deductive verification (Verus): the real comparison loop against a recursive specification of rpmvercmp, order laws proved on the specification',
 )
 PROPS['C09'] = dict(
-    level='proof', verus=['c09_from_entries', 'c09_append', 'c09_blocks', 'c14_writers', 'c07_payload', 'c07_header', 'c16_offsets', 'c17_compressor', 'c06_files'],
+    level='proof', verus=['c09_from_entries', 'c09_append', 'c09_lead', 'c09_blocks', 'c14_writers', 'c07_payload', 'c07_header', 'c16_offsets', 'c17_compressor', 'c06_files'],
     trusted_base=[A_TOOLS, A_EXTRACT, 'IndexData::append is proved on its verbatim body for data and stores of any size (unit c09_append; the two iterator chains d.iter().map(to_be_bytes) / d.iter().flat_map(to_be_bytes().to_vec()) are helper contracts: the big-endian bytes of the items in order - K:k_append_* check the same contract on the real function with the real iterators for small sizes); write_index contract proved in unit c14_writers',
                   'assumed std specification of slice::sort_by (permutation, no earlier element compares Greater than a later one)', 'A-UTF8: String::as_bytes is uninterpreted'],
     assumptions=['PARTIAL: decided are the header layout produced by Header::from_entries / create_region_tag (region tag + trailer, ascending tags, aligned in-range non-overlapping offsets, store = aligned concatenation), the 8-byte signature padding, the cpio 4-byte alignment arithmetic and the lead defaults. BLOCK contracts on verbatim statement ranges of PackageBuilder::prepare_data (the function as a whole is out of reach) cover the rpmlib() requirements per feature used (b2), the accumulation of the file-capabilities flag (b3) and the large-file entry framing (b4); Compressor::try_from builds the variant requested (c17). the large-file format is used exactly when the file sizes add up to more than u32::MAX, and the sizes are then 64-bit under LONGFILESIZES (blocks b13, b12 of unit c06_files). NOT covered: distinctness of emitted tags, non-zero counts, payload order = header order, how the zstd flag is derived',
